@@ -117,6 +117,11 @@ func (i *interpreter) symEquals(t types.Type, x, y value) *Term {
 				if sx.kind == "hex" && sy.kind == "hex" {
 					return i.elemsEqual(sx.bytes, sy.bytes)
 				}
+				ex, okx := strElems(sx)
+				ey, oky := strElems(sy)
+				if okx && oky {
+					return i.elemsEqual(ex, ey)
+				}
 			}
 			panic(unsupported("comparison of an opaque string"))
 		}
@@ -238,6 +243,34 @@ func (i *interpreter) targetStack(fr *frame, max int) string {
 			pos = fmt.Sprintf(" %s:%d", p.Filename, p.Line)
 		}
 		sb.WriteString("\n      " + f.fn.String() + pos)
+	}
+	return sb.String()
+}
+
+// mapKey canonicalises map keys: text derived only from abstract hashes (hex of a hash) becomes a
+// concrete canonical string; other symbolic keys are unsupported.
+func mapKey(k value) value {
+	st, ok := k.(symStr)
+	if !ok {
+		if isSymOrStr(k) {
+			panic(unsupported(fmt.Sprintf("symbolic map key %T", k)))
+		}
+		return k
+	}
+	var sb strings.Builder
+	sb.WriteString("\x00abs:" + st.kind + ":")
+	for _, e := range st.bytes {
+		switch b := e.(type) {
+		case byte:
+			fmt.Fprintf(&sb, "%02x", b)
+		case absByte:
+			fmt.Fprintf(&sb, "[h%d.%d]", b.id, b.pos)
+		default:
+			panic(unsupported("map key derived from a symbolic value"))
+		}
+	}
+	if len(st.bytes) == 0 {
+		panic(unsupported("map key is an opaque string"))
 	}
 	return sb.String()
 }
